@@ -144,7 +144,7 @@ func runOne(bin string, in simInput, timeout time.Duration) *outcome {
 	b, _ := json.Marshal(in)
 	os.WriteFile(inPath, b, 0o644)
 	cmd := exec.Command(bin, "-test.run", "^TestSim$", "-test.timeout", "0")
-	cmd.Env = append(os.Environ(), "VERIF_SIM_IN="+inPath, "VERIF_SIM_OUT="+outPath, "GOMAXPROCS="+envOr("VERIF_GOMAXPROCS", "2"), "GORACE=halt_on_error=0 exitcode=66")
+	cmd.Env = append(os.Environ(), "VERIF_SIM_IN="+inPath, "VERIF_SIM_OUT="+outPath, "GOMAXPROCS="+envOr("VERIF_GOMAXPROCS", "1"), "GODEBUG=asyncpreemptoff=1", "GORACE=halt_on_error=0 exitcode=66")
 	if !in.Verbose {
 		cmd.Env = append(cmd.Env, "TMPDIR="+dir)
 	}
